@@ -432,13 +432,15 @@ class Replayer:
             return v
         return a
 
-    def locate(self, w, k2, i):
+    def locate(self, w, k2, i, view=False):
         if w == "cur":
             return self.optin[k2]
         if w == "dcur":
             return self.d["_current"][k2]
         if w == "dhist":
             h = self.d["_history"][k2]
+            if isinstance(h, self.np.ndarray) and view:
+                return h[i - 1]   # the caller overwrites this batch INSIDE its stacked array
             if isinstance(h, self.np.ndarray):   # a batch taken out of the caller's stacked array: its own array (not a view of the stack)
                 if not hasattr(self, "_unstacked"):
                     self._unstacked = {}
@@ -602,7 +604,7 @@ class Replayer:
             sm.load_state(os.path.join(self.tmp, "state.pkl"))
             self.optin = {}
         elif op == "scribble":
-            tgt = self.locate(l["w"], l["k2"], i)
+            tgt = self.locate(l["w"], l["k2"], i, view=True)
             if isinstance(tgt, np.ndarray) and not tgt.flags.writeable and isinstance(tgt.base, np.ndarray) and tgt.base.flags.writeable:
                 tgt = tgt.base   # the caller's own buffer behind the read-only view it handed over
             tgt.fill(SENT)
